@@ -345,6 +345,40 @@ func xlateTie(r *Result, mainPool *DriverPool, rng *rand.Rand, n int) error {
 		}
 	}
 	r.Add("xlate_op_scripts", n/4)
+	// the hash table of HashTable4: entries with few distinct hashes (long chains), tiny delta rings (chains cut off by
+	// the ring), queries in between
+	for i := 0; i < n/4; i++ {
+		capacity := 1 + rng.Intn(60)
+		exp := rng.Intn(5)
+		nh := 1 + rng.Intn(6)
+		var steps []string
+		for j := 0; j < 1+rng.Intn(150); j++ {
+			h := uint64(rng.Intn(nh))
+			if rng.Intn(8) == 0 {
+				h = rng.Uint64()
+			}
+			if rng.Intn(3) == 0 {
+				steps = append(steps, fmt.Sprintf("g,%d", h))
+			} else {
+				steps = append(steps, fmt.Sprintf("p,%d", h))
+			}
+		}
+		var goSteps []string
+		for _, st := range steps {
+			goSteps = append(goSteps, strings.ReplaceAll(st, ",", " "))
+		}
+		goOut := canonPanics(strings.Join(lzma.VerifHashTableScript(capacity, exp, goSteps), "|"))
+		req := fmt.Sprintf("gosrc ht %d %d %s", capacity, exp, strings.Join(steps, " "))
+		leanOut, err := dp.Ask(req)
+		if err != nil {
+			return err
+		}
+		r.Count("xlate-ht/"+req, true)
+		if goOut != canonPanics(leanOut) {
+			mism("hash table", req, goOut, leanOut)
+		}
+	}
+	r.Add("xlate_ht_scripts", n/4)
 	// byteAt of both dictionaries on raw ring states
 	for i := 0; i < n; i++ {
 		size := 2 + rng.Intn(40)
